@@ -1,12 +1,7 @@
-"""Op-table additions for the constraints / metrics area (C08, C16).
-
-1. float()/int() of a real-sorted symbolic scalar with finitely many feasible values (value enumeration, like
-   Explorer.decide_value does for integers).
-2. torch ops used by kaira.constraints / kaira.metrics that the base table lacks (see below).
+"""Op-table additions for the constraints / metrics area (C08, C16): torch ops used by kaira.constraints / kaira.metrics that the
+base table lacks.  (The scalar-interop and real-value-enumeration workarounds that lived here are now part of vk/sym.py / vk/explore.py.)
 """
 from __future__ import annotations
-
-import math
 
 import numpy as np
 import torch
@@ -14,80 +9,33 @@ import torch
 from . import sym as S
 from .mode import Res, reg
 from .tensor import SymTensor
+from . import ops as _ops
+from .mode import HANDLERS
 
+T = torch.Tensor
 
 # ------------------------------------------------------------------------------------------------
-# float()/int() of a real-sorted symbolic scalar with FINITELY many feasible values (e.g. `float(block_errors / n_blocks)`):
-# enumerate the feasible values exactly like Explorer.decide_value does for integers (one path per value, the remaining values
-# are scheduled with an exclusion list); an infinite value set hits the cap and stays Unsupported.
-import z3  # noqa: E402
-from fractions import Fraction  # noqa: E402
+# |x| of a REAL symbolic value as the un-expanded square-root form sqrt(x*x) instead of If(x >= 0, x, -x): `torch.abs(x) ** 2`
+# (PerAntennaPowerConstraint, measure_signal_properties, PAPRConstraint on real signals) then normalises to x*x exactly like the
+# complex case, and comparisons between magnitudes compare radicands.  Opt-in (flag set by the contract around its calls): the
+# default table entry is unchanged for everybody else.
+ABS_AS_SQRT = [False]
+_orig_abs = HANDLERS[torch.abs][0]
 
 
-def _rv(v):
-    v = Fraction(v)
-    return z3.RealVal(f"{v.numerator}/{v.denominator}")
+@reg(T.abs, torch.abs, T.__abs__, T.absolute, torch.absolute)
+def _abs_cons(a):
+    if ABS_AS_SQRT[0] and isinstance(a, torch.Tensor) and not a.dtype.is_complex:
+        ar, _ = _ops.pl(a)
+        return Res(_ops.ew1(lambda v: S.ssqrt(S.mul(v, v)) if isinstance(v, S.Sym) else abs(v), ar))
+    return _orig_abs(a)
 
 
-def _decide_real_value(ex, sym, cap=256):
-    e = sym.e
-    i = len(ex.trace)
-    excluded = ()
-    if i < len(ex.prefix):
-        ent = ex.prefix[i]
-        if isinstance(ent, tuple) and ent[0] == "val":
-            v = ent[1]
-            ex.trace.append(ent)
-            c = e == _rv(v)
-            ex.pc.append(c)
-            ex.solver.add(c)
-            return v
-        if isinstance(ent, tuple) and ent[0] == "excl":
-            excluded = ent[1]
-        else:
-            raise S.EngineFault("decision kind mismatch on re-execution")
-    ex.solver.push()
-    for x in excluded:
-        ex.solver.add(e != _rv(x))
-    r = ex.solver.check()
-    if r == z3.unsat:
-        ex.solver.pop()
-        from .explore import PathInfeasible
+class abs_as_sqrt:
+    def __enter__(self):
+        self.prev = ABS_AS_SQRT[0]
+        ABS_AS_SQRT[0] = True
 
-        raise PathInfeasible()
-    if r != z3.sat:
-        ex.solver.pop()
-        raise S.Unsupported("real value enumeration: solver returned unknown")
-    mv = ex.solver.model().eval(e, model_completion=True)
-    ex.solver.pop()
-    if not z3.is_rational_value(mv):
-        raise S.Unsupported("real value enumeration: non-rational model value")
-    v = Fraction(mv.numerator_as_long(), mv.denominator_as_long())
-    if len(excluded) >= cap:
-        raise S.Unsupported(f"concretisation of a symbolic real value with more than {cap} feasible values")
-    ex.todo.append(ex.trace + [("excl", tuple(excluded) + (v,))])
-    ex.trace.append(("val", v))
-    c = e == _rv(v)
-    ex.pc.append(c)
-    ex.solver.add(c)
-    return v
-
-
-def _patch_concretize():
-    if getattr(S.Sym, "_cons_conc", False):
-        return
-    orig = S.Sym.concretize
-
-    def concretize(self):
-        if self.bx is None and self.lin is None and self.sort == "real":
-            ex = S.explorer()
-            if ex is None:
-                raise S.EngineFault("concretisation outside an exploration")
-            return S.norm(_decide_real_value(ex, self))
-        return orig(self)
-
-    S.Sym.concretize = concretize
-    S.Sym._cons_conc = True
-
-
-_patch_concretize()
+    def __exit__(self, *a):
+        ABS_AS_SQRT[0] = self.prev
+        return False
